@@ -17,6 +17,11 @@ def g_docdoc(s):
     dialect = "en" if s.int(4) else s.choice(model.DIALECT_NAMES)
     D = DIALECTS[dialect]
     doc = {"eol": s.choice(["\n", "\n", "\r\n"]), "final_eol": s.int(4) != 3, "pre": [], "pre2": [], "post": [], "lang": None, "header": None, "default": dialect}
+    if s.int(2):
+        # dialect selected by a header while the matcher's configured default is another one
+        doc["default"] = "en" if dialect != "en" else "fr"
+        doc["lang"] = dialect
+        doc["header"] = "# language: " + dialect
     f = {"kw": D["feature"][0], "indent": "", "sep": " ", "name": "f", "trail": "", "pre": [], "desc": [], "tags": []}
 
     def steps(n):
